@@ -684,6 +684,159 @@ static void std_sequence_cases() {
     }
 }
 
+// ---- the source view is read-only for every fill entry point; repetition is exact ---------------------------------
+// For every pixel organisation (interleaved and planar; mutable view and const_view), every bin width, with masks and
+// limits: all pixels of the whole underlying image are compared before/after each call
+// (key source-modified.<type>.<entry>), and filling twice from the same view gives exactly twice the single-fill bins
+// with accumulation and the same bins without (key repeat.*): a filler that scales the pixels in place fails both.
+template <class Img> struct psrc {
+    typedef typename Img::value_type P;
+    typedef typename gil::channel_type<P>::type ch_t;
+    static const int N = gil::num_channels<P>::value;
+    Img img; int w = 0, h = 0, W = 0, H = 0;
+    std::vector<long> all;    // the harness's own copy of every channel of the whole image
+    void make(int w_, int h_, vh::rng& r, long bw) {
+        w = w_; h = h_; W = w + 2; H = h + 2;
+        img.recreate(W, H);
+        const long cmin = (long)std::numeric_limits<ch_t>::min(), cmax = (long)std::numeric_limits<ch_t>::max();
+        long lo[4], hi[4];
+        for (int c = 0; c < N; ++c) {
+            long span = std::min<long>(cmax - cmin, r.range(1, (int)(3 * bw + 2)));
+            long base = r.coin() ? cmax - span : cmin < 0 ? std::max(cmin, -span / 2 - 1) : (long)r.below((uint64_t)(cmax - span + 1));
+            lo[c] = base; hi[c] = base + span;
+        }
+        all.assign((size_t)W * H * N, 0);
+        auto v = gil::view(img);
+        for (int y = 0; y < H; ++y) for (int x = 0; x < W; ++x) for (int c = 0; c < N; ++c) {
+            long val = lo[c] + (long)r.below((uint64_t)(hi[c] - lo[c] + 1));
+            all[((size_t)y * W + x) * N + c] = val; v(x, y)[c] = (ch_t)val;
+        }
+    }
+    typename Img::view_t view() { return gil::subimage_view(gil::view(img), 1, 1, w, h); }
+    typename Img::const_view_t cview() { return gil::subimage_view(gil::const_view(img), 1, 1, w, h); }
+    long at(int x, int y, int c) const { return all[((size_t)(y + 1) * W + (x + 1)) * N + c]; }
+    // compares the whole image with the copy; restores it when it differs
+    bool unchanged(std::string* where) {
+        auto v = gil::view(img);
+        bool ok = true;
+        for (int y = 0; y < H; ++y) for (int x = 0; x < W; ++x) for (int c = 0; c < N; ++c) {
+            long expect = all[((size_t)y * W + x) * N + c];
+            if ((long)v(x, y)[c] != expect) {
+                if (ok && where) *where = vh::cat("pixel (", x - 1, ",", y - 1, ") channel ", c, " was ", expect, ", is now ", (long)v(x, y)[c]);
+                ok = false; v(x, y)[c] = (ch_t)expect;
+            }
+        }
+        return ok;
+    }
+};
+template <class Img> struct IN;
+#define INDEF(I, NAME) template <> struct IN<gil::I> { static const char* name() { return NAME; } };
+INDEF(gray8_image_t, "gray8") INDEF(rgb8_image_t, "rgb8") INDEF(rgb16_image_t, "rgb16") INDEF(rgb8_planar_image_t, "rgb8-planar")
+INDEF(rgba16_planar_image_t, "rgba16-planar") INDEF(rgb8s_planar_image_t, "rgb8s-planar") INDEF(cmyk8_planar_image_t, "cmyk8-planar")
+
+template <class Img> static void src_check(psrc<Img>& s, const std::string& entry, const std::string& what) {
+    std::string where;
+    vh::evals(1);
+    if (!s.unchanged(&where)) V(vh::cat("source-modified.", IN<Img>::name(), ".", entry), [&] { return vh::cat(what, " entry=", entry, ": the source image changed: ", where); });
+}
+template <class Hist> static bool same_scaled(Hist const& A, Hist const& B, double k, std::string* why) {   // A == k * B, bin by bin
+    for (auto const& kv : A) { auto it = B.find(kv.first); double e = it == B.end() ? 0 : it->second * k; if (kv.second != e) { *why = vh::cat("bin ", kstr(key_arr(kv.first), (int)Hist::dimension()), " holds ", kv.second, ", expected ", e); return false; } }
+    for (auto const& kv : B) if (kv.second && A.find(kv.first) == A.end()) { *why = vh::cat("bin ", kstr(key_arr(kv.first), (int)Hist::dimension()), " is missing"); return false; }
+    return true;
+}
+template <class Img, class View> static void std_entries(psrc<Img>& s, View const& v, const char* suffix, const std::string& what, std::true_type) {
+    typedef typename psrc<Img>::ch_t ch_t;
+    const std::string tn = IN<Img>::name();
+    { std::vector<int> a, b; gil::fill_histogram(v, a); src_check(s, std::string("std-vector") + suffix, what);
+      gil::fill_histogram(v, b, true); gil::fill_histogram(v, b, true); src_check(s, std::string("std-vector-accumulate") + suffix, what);
+      bool bad = a.size() != b.size(); for (size_t i = 0; !bad && i < a.size(); ++i) if (b[i] != 2 * a[i]) bad = true;
+      if (bad) V("repeat.accumulate-twice." + tn + ".std-vector" + suffix, [&] { return what + ": two accumulating vector fills are not twice one fill"; }); }
+    { std::map<int, int> a, b; gil::fill_histogram(v, a); src_check(s, std::string("std-map") + suffix, what);
+      gil::fill_histogram(v, b, true); gil::fill_histogram(v, b, true); src_check(s, std::string("std-map-accumulate") + suffix, what);
+      bool bad = a.size() != b.size(); for (auto const& kv : a) if (!b.count(kv.first) || b[kv.first] != 2 * kv.second) bad = true;
+      if (bad) V("repeat.accumulate-twice." + tn + ".std-map" + suffix, [&] { return what + ": two accumulating map fills are not twice one fill"; }); }
+    { typedef std::array<int, (std::size_t)std::numeric_limits<ch_t>::max() + 1> arr_t;
+      std::unique_ptr<arr_t> a(new arr_t), b(new arr_t); a->fill(0); b->fill(0);
+      gil::fill_histogram(v, *a); src_check(s, std::string("std-array") + suffix, what);
+      gil::fill_histogram(v, *b, true); gil::fill_histogram(v, *b, true); src_check(s, std::string("std-array-accumulate") + suffix, what);
+      bool bad = false; for (size_t i = 0; !bad && i < a->size(); ++i) if ((*b)[i] != 2 * (*a)[i]) bad = true;
+      if (bad) V("repeat.accumulate-twice." + tn + ".std-array" + suffix, [&] { return what + ": two accumulating array fills are not twice one fill"; }); }
+}
+template <class Img, class View> static void std_entries(psrc<Img>&, View const&, const char*, const std::string&, std::false_type) {}
+template <class Hist, class View> static void dims_entry(View const& v, Hist& h, long bw, std::true_type) { gil::fill_histogram<1>(v, h, (std::size_t)bw); }
+template <class Hist, class View> static void dims_entry(View const&, Hist&, long, std::false_type) {}
+
+template <class Img, class View> static void source_entries(psrc<Img>& s, View const& v, const char* suffix, long bw, vh::rng& r) {
+    typedef psrc<Img> S;
+    const int N = S::N;
+    typedef typename full_hist<N>::type H;
+    typedef typename H::key_type key_t;
+    const std::string tn = IN<Img>::name();
+    const std::string what = vh::cat(tn, " ", s.w, "x", s.h, " bin_width=", bw, suffix[0] ? " const_view" : " mutable view");
+    // mask and limit box on the keys
+    std::vector<std::vector<bool>> mask(s.h, std::vector<bool>(s.w));
+    for (int y = 0; y < s.h; ++y) for (int x = 0; x < s.w; ++x) mask[y][x] = r.below(4) != 0;
+    karr lo{{0, 0, 0, 0}}, hi{{0, 0, 0, 0}};
+    for (int c = 0; c < N; ++c) {
+        long kmin = 0, kmax = 0; bool first = true;
+        for (int y = 0; y < s.h; ++y) for (int x = 0; x < s.w; ++x) { long k = div_trunc(s.at(x, y, c), bw); if (first || k < kmin) kmin = k; if (first || k > kmax) kmax = k; first = false; }
+        lo[c] = kmin + r.range(0, 1); hi[c] = std::max(lo[c], kmax - r.range(0, 1));
+    }
+    const key_t lower = make_key<key_t>(lo), upper = make_key<key_t>(hi);
+    for (int variant = 0; variant < 4; ++variant) {
+        const bool um = variant & 1, ul = variant & 2;
+        const std::string vs = vh::cat(um ? "+mask" : "", ul ? "+limits" : "");
+        // the loop model over the harness's own copy
+        model_t M;
+        for (int y = 0; y < s.h; ++y) for (int x = 0; x < s.w; ++x) {
+            if (um && !mask[y][x]) continue;
+            karr k{{0, 0, 0, 0}}; bool in = true;
+            for (int c = 0; c < N; ++c) { k[c] = div_trunc(s.at(x, y, c), bw); if (ul && (k[c] < lo[c] || k[c] > hi[c])) in = false; }
+            if (in) ++M[k];
+        }
+        std::string why;
+        // (1) histogram::fill member: one call, then a second one (the member always adds)
+        { H h1; h1.template fill<>(v, (std::size_t)bw, um, mask, lower, upper, ul); src_check(s, std::string("fill") + suffix, what + vs);
+          if (!hist_equals(h1, M, &why)) V("repeat.single." + tn + ".fill" + suffix, [&] { return vh::cat(what, vs, " histogram::fill: ", why); });
+          H h2 = h1; h2.template fill<>(v, (std::size_t)bw, um, mask, lower, upper, ul); src_check(s, std::string("fill-again") + suffix, what + vs);
+          if (!same_scaled(h2, h1, 2, &why)) V("repeat.accumulate-twice." + tn + ".fill" + suffix, [&] { return vh::cat(what, vs, " histogram::fill twice is not twice one fill: ", why); }); }
+        // (2) fill_histogram: replace, replace again, accumulate twice
+        { H h1; gil::fill_histogram(v, h1, (std::size_t)bw, false, true, um, mask, lower, upper, ul); src_check(s, std::string("fill_histogram") + suffix, what + vs);
+          if (!hist_equals(h1, M, &why)) V("repeat.single." + tn + ".fill_histogram" + suffix, [&] { return vh::cat(what, vs, " fill_histogram: ", why); });
+          H h2 = h1; gil::fill_histogram(v, h2, (std::size_t)bw, false, true, um, mask, lower, upper, ul); src_check(s, std::string("fill_histogram-again") + suffix, what + vs);
+          if (!same_scaled(h2, h1, 1, &why)) V("repeat.replace-twice." + tn + ".fill_histogram" + suffix, [&] { return vh::cat(what, vs, " fill_histogram without accumulate, twice: ", why); });
+          H h3; gil::fill_histogram(v, h3, (std::size_t)bw, true, true, um, mask, lower, upper, ul); gil::fill_histogram(v, h3, (std::size_t)bw, true, true, um, mask, lower, upper, ul);
+          src_check(s, std::string("fill_histogram-accumulate") + suffix, what + vs);
+          if (!same_scaled(h3, h1, 2, &why)) V("repeat.accumulate-twice." + tn + ".fill_histogram" + suffix, [&] { return vh::cat(what, vs, " fill_histogram with accumulate, twice, is not twice one fill: ", why); }); }
+    }
+    // (3) selected channel, (4) default-argument call, (5) std containers (unsigned channels)
+    { gil::histogram<int> hd, hd2; dims_entry(v, hd, bw, std::integral_constant<bool, (N >= 2)>{}); src_check(s, std::string("fill_histogram-dims") + suffix, what);
+      dims_entry(v, hd2, bw, std::integral_constant<bool, (N >= 2)>{}); src_check(s, std::string("fill_histogram-dims-again") + suffix, what); std::string why; if (!same_scaled(hd2, hd, 1, &why)) V("repeat.replace-twice." + tn + ".fill_histogram-dims" + suffix, [&] { return what + " fill_histogram<1>: " + why; }); }
+    { H h; gil::fill_histogram(v, h); src_check(s, std::string("fill_histogram-defaults") + suffix, what); }
+    std_entries(s, v, suffix, what, std::integral_constant<bool, std::is_unsigned<typename S::ch_t>::value>{});
+}
+
+// which: 0 = the mutable view, 1 = const_view (separate binaries: a filler that writes through the pixel it fetched does
+// not even compile for a const planar view, and must not take the mutable-view observations down with it)
+template <class Img> static void source_entries_sel(psrc<Img>& s, long bw, vh::rng& r, std::integral_constant<int, 0>) { source_entries(s, s.view(), "", bw, r); }
+template <class Img> static void source_entries_sel(psrc<Img>& s, long bw, vh::rng& r, std::integral_constant<int, 1>) { source_entries(s, s.cview(), "-const", bw, r); }
+template <class Img, int which> static void source_cases() {
+    const int S = vh::thorough() ? 5 : 3;
+    static const long widths_q[] = {1, 2, 3, 5, 41}, widths_t[] = {1, 2, 3, 4, 5, 7, 8, 16, 41, 100};
+    for (int h = 0; h <= S; ++h) for (int w = 0; w <= S; ++w) {
+        if (!vh::begin_case(std::string(which ? "source-const." : "source.") + IN<Img>::name(), vh::cat(w, "x", h))) continue;
+        vh::rng r = vh::case_rng();
+        const long* ws = vh::thorough() ? widths_t : widths_q; const int nw = vh::thorough() ? 10 : 5;
+        for (int i = 0; i < nw; ++i) {
+            psrc<Img> s; s.make(w, h, r, ws[i]);
+            source_entries_sel(s, ws[i], r, std::integral_constant<int, which>{});
+            if (w && h) vh::distinct_hash(vh::hash_bytes(s.all.data(), s.all.size() * sizeof(long), vh::hash_str(IN<Img>::name()) + ws[i]));
+        }
+        vh::obs(std::string(which ? "source-const." : "source.") + IN<Img>::name());
+        if (w == 2 && h == 2) vh::sample(vh::cat("source immutability / repetition: ", IN<Img>::name(), " 2x2, bin widths 1,2,3,5,41, mutable view and const_view, fill / fill_histogram / <dims> / std containers, +-mask +-limits"));
+    }
+}
+
 // ---- bin-width sweep: every channel value (8 bit) / every bin boundary (16 bit) x the whole range of widths --------
 // The bin of a value is value / width (C++ integer division); an implementation that goes through floating point,
 // shifts, reciprocal multiplication ... differs only for particular (value, width) pairs near bin boundaries.
@@ -770,6 +923,18 @@ int main(int argc, char** argv) {
     binning_cases<gil::gray16s_pixel_t>();
 #elif C19_PART == 7
     std_sequence_cases();
+#elif C19_PART == 8 || C19_PART == 10
+    source_cases<gil::gray8_image_t, (C19_PART >= 10)>();
+    source_cases<gil::rgb8_image_t, (C19_PART >= 10)>();
+    source_cases<gil::rgb8_planar_image_t, (C19_PART >= 10)>();
+    source_cases<gil::rgb8s_planar_image_t, (C19_PART >= 10)>();
+#elif C19_PART == 9 || C19_PART == 11
+    source_cases<gil::rgb16_image_t, (C19_PART >= 10)>();
+    source_cases<gil::rgba16_planar_image_t, (C19_PART >= 10)>();
+    source_cases<gil::cmyk8_planar_image_t, (C19_PART >= 10)>();
+#elif C19_PART == 12
+    // instantiation probe: filling from a const planar view must compile
+    { gil::rgb8_planar_image_t img(2, 2, gil::rgb8_pixel_t(9, 8, 7)); gil::histogram<int, int, int> h; gil::fill_histogram(gil::const_view(img), h, 2); gil::histogram<int> h1; gil::fill_histogram<1>(gil::const_view(img), h1, 3); (void)h.sum(); }
 #endif
     return vh::finish();
 }
